@@ -631,6 +631,109 @@ class ParameterClone(_NativeJudge, Contract):
                 ("no-mutable-part-shared", not theirs)]
 
 
+
+PSCALE = "openfisca_core.parameters.parameter_scale.ParameterScale"
+PBRACKET = "openfisca_core.parameters.parameter_scale_bracket.ParameterScaleBracket"
+
+
+def _meta(tag):
+    inner = ListVal(["ref-" + tag])
+    return dict_of([("unit", "currency"), ("type", "marginal_rate"), ("reference", inner)])
+
+
+class _CloneSite(Contract):
+    """call-site contract of the clone() of a child (Parameter.clone / ParameterNode.clone are verified on their own): a fresh
+    object of the same class, logged"""
+    prop = ()
+
+    def outcomes(self, I, ctx, a, old):
+        o = a["self"]
+        c = Obj(o.cls, {"name": o.fields.get("name"), "__clone_of": o}, label="clone-of:" + str(o.label))
+        ctx.ghost.setdefault("child_clones", []).append((o, c))
+        return ("return", c)
+
+    def post(self, I, ctx, a, out, old):
+        return []
+
+
+def _site(name):
+    c = _CloneSite()
+    c.name = name
+    return c
+
+
+class ParamNodeClone(Contract):
+    name = f"{PNODE}.clone"
+    prop = ("C14",)
+    top_level = True
+    cases = ("group", "scale")
+    descr = ("a cloned parameter group / scale shares no mutable part with the original: its metadata is a copy of its own (changing "
+             "the kind of a scale on a copied system does not reach the original), its children / brackets are the clones of the "
+             "original's, reachable under the same names; the original is untouched")
+    inline = ("openfisca_core.commons.misc.empty_clone", "openfisca_core.commons.misc.empty_clone.<locals>.__init__")
+
+    def setup(self, I, ctx, case):
+        R = I.resolve_qualified
+        if case == "group":
+            kids = [Obj(R(PARAM), {"name": "taxes." + k, "metadata": DictVal()}, label="param:" + k) for k in ("rate", "ceiling")]
+            node = Obj(R(PNODE), {"name": "taxes", "children": dict_of([("rate", kids[0]), ("ceiling", kids[1])]), "rate": kids[0], "ceiling": kids[1],
+                                  "metadata": _meta("g"), "description": None, "documentation": None, "file_path": None}, label="node:taxes")
+        else:
+            kids = [Obj(R(PBRACKET), {"name": f"scale[{k}]", "metadata": DictVal(), "children": DictVal()}, label=f"bracket:{k}") for k in range(2)]
+            node = Obj(R(PSCALE), {"name": "scale", "brackets": ListVal(list(kids)), "metadata": _meta("s"), "description": None,
+                                   "documentation": None, "file_path": None}, label="scale")
+        return {"self": node, "__kids": kids, "__snap": snap(reach([node])), "__case": case}
+
+    def target_name(self, case):
+        return f"{PSCALE}.clone" if case == "scale" else self.name
+
+    @staticmethod
+    def local_contracts():
+        return {f"{PARAM}.clone": _site(f"{PARAM}.clone")}
+
+    def post(self, I, ctx, a, out, old):
+        node, kids = a["self"], a["__kids"]
+        if out[0] != "return" or not isinstance(out[1], Obj):
+            return [("returns-a-node", False)]
+        c = out[1]
+        clones = ctx.ghost.get("child_clones", [])
+        md, md0 = c.fields.get("metadata"), node.fields["metadata"]
+        res = [("original-untouched", not changed(a["__snap"])), ("new-object-of-the-same-class", c is not node and c.cls is node.cls),
+               ("own-metadata-with-the-same-content", isinstance(md, DictVal) and md is not md0 and set(md.items) == set(md0.items)
+                and all(_same(md.items[k], md0.items[k]) or isinstance(md0.items[k], CONTAINERS) for k in md0.items)),
+               ("no-container-inside-the-metadata-is-shared", isinstance(md, DictVal) and not any(any(x is y for y in reach([md0])) for x in reach([md]))),
+               ("every-child-cloned-once", [o for o, _ in clones] == kids or sorted(id(o) for o, _ in clones) == sorted(id(k) for k in kids))]
+        by = {id(o): cl for o, cl in clones}
+        if a["__case"] == "group":
+            ch = c.fields.get("children")
+            ok = isinstance(ch, DictVal) and ch is not node.fields["children"] and set(ch.items) == set(node.fields["children"].items)
+            res.append(("own-children-table-with-the-same-names", ok))
+            if ok:
+                for k, v0 in node.fields["children"].items.items():
+                    nm = node.fields["children"].keyvals[k]
+                    res.append((f"child-{nm}-is-the-clone-of-the-original's", ch.items[k] is by.get(id(v0))))
+                    res.append((f"attribute-{nm}-is-that-clone", c.fields.get(nm) is by.get(id(v0))))
+        else:
+            br = c.fields.get("brackets")
+            ok = isinstance(br, (ListVal, SymList)) and br is not node.fields["brackets"]
+            res.append(("own-list-of-brackets", ok))
+            if ok and isinstance(br, ListVal):
+                res.append(("brackets-are-the-clones-of-the-original's-in-order", len(br.items) == len(kids) and all(b is by.get(id(k)) for b, k in zip(br.items, kids))))
+        return res
+
+
+class ParamScaleClone(ParamNodeClone):
+    name = f"{PSCALE}.clone"
+    cases = ("scale",)
+
+    @staticmethod
+    def local_contracts():
+        return {f"{PNODE}.clone": _site(f"{PNODE}.clone")}
+
+
+ParamNodeClone.cases = ("group",)
+
+
 class NeutralizedHelper(Contract):
     name = f"{VHELP}.get_neutralized_variable"
     prop = ("C14",)
@@ -654,8 +757,11 @@ class VariableSet(Contract):
     name = f"{VAR}.set"
     prop = ("C14",)
     top_level = True
-    cases = ("redefined", "inherited", "missing-required", "neither")
-    descr = "an updated variable keeps every attribute it does not redefine from the variable it updates"
+    cases = ("redefined", "inherited", "missing-required", "neither", "redefined-as-empty-text", "redefined-as-false", "redefined-as-zero")
+    FALSY = {"redefined-as-empty-text": ("label", "", "str"), "redefined-as-false": ("is_period_size_independent", False, "bool"),
+             "redefined-as-zero": ("default_value", 0, "int")}
+    descr = ("an updated variable keeps every attribute it does not redefine from the variable it updates - and what it does "
+             "redefine wins, also when the new value is '', False or 0")
 
     def setup(self, I, ctx, case):
         w = World14(I, ctx)
@@ -663,6 +769,14 @@ class VariableSet(Contract):
         if case == "redefined":
             attrs.items[("c", "label")] = "New label"
             attrs.keyvals[("c", "label")] = "label"
+        if case in self.FALSY:
+            nm, val, tp = self.FALSY[case]
+            w.v_tax.fields.update({"label": "Income tax", "is_period_size_independent": True, "default_value": 5})
+            attrs.items[("c", nm)] = val
+            attrs.keyvals[("c", nm)] = nm
+            me = Obj(I.resolve_qualified(VAR), {"name": "tax", "baseline_variable": w.v_tax}, label="updated")
+            return {"self": me, "attributes": attrs, "attribute_name": nm, "required": False, "allowed_type": I.builtins[tp], "__w": w,
+                    "__snap": snap(reach(w.roots)), "__falsy": val}
         me = Obj(I.resolve_qualified(VAR), {"name": "tax", "baseline_variable": w.v_tax if case in ("redefined", "inherited") else None},
                  label="updated")
         return {"self": me, "attributes": attrs, "attribute_name": "label", "required": case == "missing-required",
@@ -671,6 +785,9 @@ class VariableSet(Contract):
     def post(self, I, ctx, a, out, old):
         w = a["__w"]
         res = [("baseline-variable-untouched", not changed(a["__snap"]))]
+        if "__falsy" in a:
+            return res + [("redefined-value-wins-also-when-it-is-empty-false-or-zero",
+                           out[0] == "return" and type(out[1]) is type(a["__falsy"]) and out[1] == a["__falsy"])]
         redefined = ("c", "label") in a["attributes"].items or out[0] == "return" and out[1] == "New label"
         base = a["self"].fields["baseline_variable"]
         if a["required"] and base is None:
@@ -804,7 +921,7 @@ def install(I):
     I.ext["sortedcontainers"] = {"SortedDict": cls, "sorteddict": None}
 
 
-CONTRACTS = [VariableClone(), ParameterClone(), TbsClone(), ReformInit(), TbsLoadVariable(), TbsReplaceVariable(), TbsNeutralize(), TbsAnnualize(), AnnualFormula(), NeutralizedHelper(), VariableSet(),
+CONTRACTS = [VariableClone(), ParameterClone(), ParamNodeClone(), ParamScaleClone(), TbsClone(), ReformInit(), TbsLoadVariable(), TbsReplaceVariable(), TbsNeutralize(), TbsAnnualize(), AnnualFormula(), NeutralizedHelper(), VariableSet(),
              VariableSetFormulas()]
 for _c in (ReformInit, TbsNeutralize, TbsAnnualize, AnnualFormula, NeutralizedHelper):
     _c.local_contracts = staticmethod(lambda: {VariableCloneSite.name: VariableCloneSite()})
